@@ -10,6 +10,12 @@ import BfeVerif.C37.Model
      dc<id>:<len> DATA on a stream that was never opened (WINDOW_UPDATE(conn) if len>0, RST_STREAM)
      wz<id>       WINDOW_UPDATE with increment 0 on stream id (RST_STREAM)
      st           SETTINGS (ack is a flag, not queued)
+     dcx<n>:<len> n DATA frames on a stream that does not exist (stream error STREAM_CLOSED each)
+     wzx<n>       n zero-increment WINDOW_UPDATEs (stream error PROTOCOL from the frame parser, 1 frame each)
+     hh           open a stream, send HEADERS on it again (stream error PROTOCOL: 1)
+     wo           open a stream, WINDOW_UPDATE 2^31-1 on it (stream error FLOW_CONTROL: 1)
+     od           open a stream with content-length 0, 1 octet of DATA (RST_STREAM + WINDOW_UPDATE: 2)
+     hd<len>      open a stream with END_STREAM, DATA len on it (half-closed: WINDOW_UPDATE if len>0, RST_STREAM)
      rel          the client reads again; wait until everything is written
      o            observe `q=<queuedControlFrames>,z=<len(writeSched.zero)>` on the serve goroutine, or `closed`
   result = one token per op: `s` | `+` (connection alive afterwards) | `x` (connection closed) | observation
@@ -19,6 +25,8 @@ open BfeVerif.Proto
 
 inductive Op where
   | stall | ping (n : Nat) | dataClosed (id len : Nat) | wuZero (id : Nat) | settings | rel | obs
+  | bulk (n k : Nat)        -- n received frames queueing k stream-less frames each
+  | openThen (k : Nat)      -- a HEADERS frame opening a stream (queues nothing), then a frame queueing k
 deriving Repr
 
 def parseOp (t : String) : Option Op :=
@@ -26,6 +34,14 @@ def parseOp (t : String) : Option Op :=
   else if t == "st" then some .settings
   else if t == "rel" then some .rel
   else if t == "o" then some .obs
+  else if t == "hh" || t == "wo" then some (.openThen 1)
+  else if t == "od" then some (.openThen 2)
+  else if t.startsWith "hd" then (t.drop 2).toString.toNat?.map fun len => .openThen (if len > 0 then 2 else 1)
+  else if t.startsWith "dcx" then
+    match ((t.drop 3).toString.splitOn ":").mapM (·.toNat?) with
+    | some [n, len] => some (.bulk n (if len > 0 then 2 else 1))
+    | _ => none
+  else if t.startsWith "wzx" then (t.drop 3).toString.toNat?.map fun n => .bulk n 1
   else if t.startsWith "dc" then
     match ((t.drop 2).toString.splitOn ":").mapM (·.toNat?) with
     | some [id, len] => some (.dataClosed id len)
@@ -42,6 +58,11 @@ def drainFuel : Nat → St → St
 def pings : Nat → St → St
   | 0, s => s
   | n + 1, s => pings n (step s (.recv 1 true))
+
+/-- apply `recv k` n times -/
+def recvs (k : Nat) : Nat → St → St
+  | 0, s => s
+  | n + 1, s => recvs k n (step s (.recv k true))
 
 structure D where
   s : St := {}
@@ -62,6 +83,9 @@ def opStep (d : D) : Op → String × D
   | .dataClosed _ len =>
     let d' := settle { d with s := step d.s (.recv (if len > 0 then 2 else 1) true) }; (alive d', d')
   | .wuZero _ => let d' := settle { d with s := step d.s (.recv 1 true) }; (alive d', d')
+  | .bulk n k => let d' := settle { d with s := recvs k n d.s }; (alive d', d')
+  | .openThen k =>
+    let d' := settle { d with s := step (step d.s (.recv 0 true)) (.recv k true) }; (alive d', d')
   | .settings => let d' := settle { d with s := step d.s (.settings true) }; (alive d', d')
   | .rel => let d' := settle { d with stalled := false }; (alive d', d')
   | .obs => (if d.s.closed then "closed" else s!"q={d.s.counter},z={d.s.zero}", d)
@@ -87,6 +111,8 @@ def kOf : Op → Nat
   | .ping n => n
   | .dataClosed _ len => if len > 0 then 2 else 1
   | .wuZero _ => 1
+  | .bulk n k => n * k
+  | .openThen k => k
   | _ => 0
 
 def parseObs (t : String) : Option (Int × Nat) :=
@@ -111,8 +137,10 @@ def monStep (m : Mon) (op : Op) (tok : String) : Mon :=
     | .rel => { m with stalled := false, elicited := 0 }
     | _ => m
   -- verdicts
-  let m := if m.mustClose && !closedNow && (match op with | .obs => true | .ping _ => true | .dataClosed .. => true | .wuZero _ => true | _ => false)
-           then m.flag "not-closed" else m
+  -- the queue holds more than limit (+ the k ≤ 2 of the last frame) stream-less frames and the connection is still open
+  let m := if m.mustClose && !closedNow && (match op with | .obs => true | .ping _ => true | .dataClosed .. => true | .wuZero _ => true | .bulk .. => true | .openThen _ => true | _ => false)
+           then m.flag "flood-not-closed" else m
+  let m := match op with | .bulk .. => m.tag "serr-flood" | .openThen _ => m.tag "serr" | _ => m
   let m := if closedNow && !m.mustClose then m.flag "early-close" else m
   match op with
   | .obs =>
